@@ -251,7 +251,8 @@ func (c *tracingHTTP2Conn) closeStreamLocked(streamID uint32, stream *http2Strea
 	if isRequest {
 		stream.requestTracer.emitUnfinished()
 		stream.builder.add(&RequestBodyEnd{Err: err})
-	} else if stream.responseTracer.builder != nil {
+	} else if stream.responseTracer.builder != nil || err != nil {
+		// (an error, i.e. a reset, ends the operation even if no response headers were seen)
 		stream.requestTracer.emitUnfinished()
 		stream.responseTracer.emitUnfinished()
 		stream.builder.add(&ResponseBodyEnd{Err: err})
